@@ -33,6 +33,9 @@ const (
 // AppDB is responsible for storing basic information about app state on disk
 type AppDB struct {
 	db db.DB
+	// batch is non-nil between BeginCommit and EndCommit: the records of one Commit reach the
+	// disk together or not at all
+	batch db.Batch
 	WG sync.WaitGroup
 	mu sync.Mutex
 
@@ -62,6 +65,31 @@ func (appDB *AppDB) Close() error {
 	return nil
 }
 
+// set stores a record: into the batch of the running Commit, or directly
+func (appDB *AppDB) set(key string, value []byte) error {
+	if appDB.batch != nil {
+		return appDB.batch.Set([]byte(key), value)
+	}
+	return appDB.db.Set([]byte(key), value)
+}
+
+// BeginCommit starts collecting the records of one Commit in a batch
+func (appDB *AppDB) BeginCommit() {
+	appDB.WG.Wait()
+	appDB.batch = appDB.db.NewBatch()
+}
+
+// EndCommit writes the collected records atomically, panics on error
+func (appDB *AppDB) EndCommit() {
+	appDB.WG.Wait()
+	batch := appDB.batch
+	appDB.batch = nil
+	defer batch.Close()
+	if err := batch.WriteSync(); err != nil {
+		panic(err)
+	}
+}
+
 // GetLastBlockHash returns latest block hash stored on disk
 func (appDB *AppDB) GetLastBlockHash() []byte {
 	appDB.mu.Lock()
@@ -87,7 +115,7 @@ func (appDB *AppDB) GetLastBlockHash() []byte {
 func (appDB *AppDB) SetLastBlockHash(hash []byte) {
 	appDB.WG.Wait()
 
-	if err := appDB.db.Set([]byte(hashPath), hash); err != nil {
+	if err := appDB.set(hashPath, hash); err != nil {
 		panic(err)
 	}
 }
@@ -122,7 +150,7 @@ func (appDB *AppDB) SetLastHeight(height uint64) {
 
 	appDB.WG.Wait()
 
-	if err := appDB.db.Set([]byte(heightPath), h); err != nil {
+	if err := appDB.set(heightPath, h); err != nil {
 		panic(err)
 	}
 
@@ -141,7 +169,7 @@ func (appDB *AppDB) SaveStartHeight() {
 
 	appDB.WG.Wait()
 
-	if err := appDB.db.Set([]byte(startHeightPath), h); err != nil {
+	if err := appDB.set(startHeightPath, h); err != nil {
 		panic(err)
 	}
 }
@@ -217,7 +245,7 @@ func (appDB *AppDB) FlushValidators() {
 
 	appDB.WG.Wait()
 
-	if err := appDB.db.Set([]byte(validatorsPath), data); err != nil {
+	if err := appDB.set(validatorsPath, data); err != nil {
 		panic(err)
 	}
 	appDB.validators = nil
@@ -297,7 +325,7 @@ func (appDB *AppDB) SaveBlocksTime() {
 
 	appDB.WG.Wait()
 
-	if err := appDB.db.Set([]byte(blocksTimePath), data); err != nil {
+	if err := appDB.set(blocksTimePath, data); err != nil {
 		panic(err)
 	}
 }
@@ -378,7 +406,7 @@ func (appDB *AppDB) SaveVersions() {
 
 	appDB.WG.Wait()
 
-	if err := appDB.db.Set([]byte(versionsPath), data); err != nil {
+	if err := appDB.set(versionsPath, data); err != nil {
 		panic(err)
 	}
 
@@ -420,7 +448,7 @@ func (appDB *AppDB) SaveEmission() {
 	}
 
 	appDB.WG.Wait()
-	if err := appDB.db.Set([]byte(emissionPath), appDB.emission.Bytes()); err != nil {
+	if err := appDB.set(emissionPath, appDB.emission.Bytes()); err != nil {
 		panic(err)
 	}
 	appDB.isDirtyEmission = false
@@ -566,7 +594,7 @@ func (appDB *AppDB) SavePrice() {
 		panic(err)
 	}
 
-	err = appDB.db.Set([]byte(pricePath), bytes)
+	err = appDB.set(pricePath, bytes)
 	if err != nil {
 		panic(err)
 	}
